@@ -950,3 +950,106 @@ Print Assumptions C03_views_reach_joins_model.
 Example C03_views_reach_joins_inhabited :
   (HostWf mhp1 Host.host_parse_opaque Host.host_display /\ NoEmpty mhp1 /\ IpWf Host.host_display) /\ kt_example_stmt.
 Proof. split; [exact model_joins_hyps | exact kt_example]. Qed.
+
+(* ---------- V3. a special scheme implies a non-empty path that starts with '/' (task c04c03inv) ---------- *)
+From RU Require Proofs.C03_InvSP Proofs.C03_InvSPSteps Proofs.C03_InvSPReach Proofs.C04_SetPath Proofs.C05_HostText.
+(* SP u (Proofs/C03_InvSP.v): if the scheme of the record is special, the byte of the serialization at path_start is '/'
+   (hence path() is not empty and starts with '/': C03_special_path_getter).  wf_b does not imply it - "http://h" with an
+   empty path is wf_b (C03_special_path_need_SP) - and PathSegmentsMut::new asserts it in debug builds
+   (C04_SetPath.psm_assert_fails).  It is an invariant of histories:
+     - EVERY record Parser::parse_url returns satisfies it (any input numbers, any override, both builds, the file states
+       included), from a base with inv03 and SP; hypothesis HostWf only; *)
+Theorem C03_special_path_parse : forall dbg hp hpo hd ovr base input u, HostWf hp hpo hd ->
+  match base with Some b => inv03 b /\ C03_InvSP.SP b | None => True end ->
+  parse_url dbg hp hpo hd ovr base input = POk u -> C03_InvSP.SP u.
+Proof. exact C03_InvSP.parse_url_sp_inv. Qed.
+Check C03_special_path_parse : forall dbg hp hpo hd ovr base input u, HostWf hp hpo hd ->
+  match base with
+  | Some b => inv03 b /\ (C05_HostText.spb b = true -> nnth (ser b) (path_start b) = Some 47)
+  | None => True
+  end ->
+  parse_url dbg hp hpo hd ovr base input = POk u ->
+  C05_HostText.spb u = true -> nnth (ser u) (path_start u) = Some 47.
+Print Assumptions C03_special_path_parse.
+
+(*   - one call of any of the 19 mutators outside excl03 keeps it (hypotheses HostWf, IpDisp; the record satisfies wfh and
+       AS = "special => ://"): a step never makes a non-special scheme special; on a special URL the setters of fragment,
+       query, port, host, credentials and scheme keep path(); Url::set_path / quirks set_pathname write a path through
+       parse_path_start, which pushes '/' for a special scheme; path_segments_mut sessions truncate behind the first '/' and
+       enter the path state behind it *)
+Theorem C03_special_path_step : forall dbg hp hpo hd u o u', HostWf hp hpo hd -> IpDisp hd ->
+  (wf_b u = true /\ host_text_ok u) -> AS u -> op_args_ok o -> excl03 u o u' = false ->
+  apply_op dbg hp hpo hd u o = Some u' -> C03_InvSP.SP u -> C03_InvSP.SP u'.
+Proof. intros dbg hp hpo hd u o u' HW HI K A Ha G H S. exact (C03_InvSPSteps.sp_step dbg hp hpo hd HW u o u' HI K A Ha G H S). Qed.
+Check C03_special_path_step : forall dbg hp hpo hd u o u', HostWf hp hpo hd -> IpDisp hd ->
+  (wf_b u = true /\ host_text_ok u) -> AS u -> op_args_ok o -> excl03 u o u' = false ->
+  apply_op dbg hp hpo hd u o = Some u' -> C03_InvSP.SP u -> C03_InvSP.SP u'.
+Print Assumptions C03_special_path_step.
+
+(* on a well-formed record SP is the statement about the getter: path() = "/..." *)
+Theorem C03_special_path_getter : forall u, wf_b u = true ->
+  (nnth (ser u) (path_start u) = Some 47 <-> exists r, path u = Some (47 :: r)).
+Proof. exact C03_InvSPSteps.path_sl_getter. Qed.
+Print Assumptions C03_special_path_getter.
+
+(* every record of reach03j (R4: parse of ANY text, joins, the file-path constructors, all 19 mutators outside the known
+   classes excl03k) and of C02's quantifier Reachable3 (R5; hypotheses as in C03_reachability_full): a special scheme
+   implies path() = "/...", and PathSegmentsMut::new's debug assertion holds (C04_no_panic_reachable3b uses it) *)
+Theorem C03_special_path_reach_joins : forall dbg hp hpo hd, HostWf hp hpo hd -> NoEmpty hp -> IpWf hd ->
+  forall u, reach03j dbg hp hpo hd u ->
+  C03_InvSP.SP u /\ (C05_HostText.spb u = true -> exists r, path u = Some (47 :: r)).
+Proof.
+  intros dbg hp hpo hd HW HNE HIPW u R.
+  destruct (C03_InvSPReach.reach03j_inv03s dbg hp hpo hd HW HNE HIPW u R) as [([W _] & _) S].
+  split; [exact S|]. intros Hs. exact (proj1 (C03_InvSPSteps.path_sl_getter u W) (S Hs)).
+Qed.
+Check C03_special_path_reach_joins : forall dbg hp hpo hd, HostWf hp hpo hd -> NoEmpty hp -> IpWf hd ->
+  forall u, reach03j dbg hp hpo hd u ->
+  C03_InvSP.SP u /\ (C05_HostText.spb u = true -> exists r, path u = Some (47 :: r)).
+Print Assumptions C03_special_path_reach_joins.
+
+Theorem C03_special_path_reachable : forall dbg hp hpo hd, HostWf hp hpo hd -> host_nonempty hp hpo -> IpWf hd ->
+  C05_Parser.HostOK hp hpo hd -> C05_Alphabet.IpOKv hd ->
+  forall u, Reachable3 dbg hp hpo hd u ->
+  C03_InvSP.SP u /\ (C05_HostText.spb u = true -> exists r, path u = Some (47 :: r))
+  /\ C04_SetPath.psm_assert_fails u = false.
+Proof.
+  intros dbg hp hpo hd HW HNE HIPW HOK HIP u R.
+  destruct (C03_InvSPReach.reach3_inv03s dbg hp hpo hd HW HNE HIPW HOK HIP u R) as [[([W _] & _) S] _].
+  split; [exact S|]. split; [|exact (C03_InvSPReach.sp_psm_assert u S)].
+  intros Hs. exact (proj1 (C03_InvSPSteps.path_sl_getter u W) (S Hs)).
+Qed.
+Check C03_special_path_reachable : forall dbg hp hpo hd, HostWf hp hpo hd -> host_nonempty hp hpo -> IpWf hd ->
+  C05_Parser.HostOK hp hpo hd -> C05_Alphabet.IpOKv hd ->
+  forall u, Reachable3 dbg hp hpo hd u ->
+  C03_InvSP.SP u /\ (C05_HostText.spb u = true -> exists r, path u = Some (47 :: r))
+  /\ C04_SetPath.psm_assert_fails u = false.
+Print Assumptions C03_special_path_reachable.
+
+(* SP is not a consequence of wf_b: the record "http://h" (empty path) is wf_b, special, and its byte at path_start does
+   not exist; the hypotheses of C03_special_path_reachable are those of C03_reachability_full_inhabited, whose history
+   exists; and a special parse result: "http://h" parses to "http://h/" with the example host functions *)
+Example C03_special_path_need_SP :
+  (let u := mkUrl [104;116;116;112;58;47;47;104] 4 7 7 8 HI_Domain None 8 None None in
+   wf_b u = true /\ C05_HostText.spb u = true /\ nnth (ser u) (path_start u) = None /\ path u = Some [])
+  /\ match parse_url true ex_hp ex_hp ex_hd2 None None (B "http://h") with
+     | POk u => C05_HostText.spb u && list_eqb (ser u) (B "http://h/") && (path_start u =? 8)
+     | _ => false
+     end = true.
+Proof. vm_compute. repeat split. Qed.
+
+(* non-vacuity of C03_special_path_step: on "http://h/a" (parsed with the example host functions) set_path("x"), a
+   path_segments_mut session pop / pop and set_host(Some "g") are steps outside excl03 with arguments in op_args_ok; the
+   results "http://h/x", "http://h/", "http://g/a" keep '/' at path_start *)
+Example C03_special_path_step_inhabited :
+  match parse_url true ex_hp ex_hp ex_hd2 None None (B "http://h/a") with
+  | POk u =>
+      let ok o := match apply_op true ex_hp ex_hp ex_hd2 u o with
+                  | Some u' => negb (excl03 u o u') && C05_HostText.spb u'
+                               && match nnth (ser u') (path_start u') with Some 47 => true | _ => false end
+                  | None => false
+                  end in
+      ok (OSetPath (B "x")) && ok (OPathSegments [PPop; PPop]) && ok (OSetHost (Some (B "g")))
+  | _ => false
+  end = true.
+Proof. vm_compute. reflexivity. Qed.
